@@ -7,7 +7,8 @@ From Helm Require Import Values.Tree Common.Assoc
   Misc.PanicsSort Misc.PanicsSortProofs Misc.PanicsSchema Misc.PanicsSchemaProofs
   Misc.PanicsStrvalsLex Misc.PanicsStrvals Misc.PanicsStrvalsProofs Gen.C20Tables
   Misc.PanicsSchemaCoalesce
-  Misc.PanicsRec Misc.PanicsRecProofs Misc.PanicsGate Misc.PanicsGateProofs Gen.C20Rec Misc.PanicsTie.
+  Misc.PanicsRec Misc.PanicsRecProofs Misc.PanicsGate Misc.PanicsGateProofs Gen.C20Rec Misc.PanicsTie
+  Misc.PanicsCoalesce Misc.PanicsCoalesceProofs.
 From Helm Require Values.Coalesce.
 Import ListNotations.
 Local Open Scope string_scope.
@@ -545,3 +546,36 @@ Theorem C20_load_dir_gate_refuted :
   existsb (fun m => negb (Bool.eqb (gate_c20_8 m) (negb (is_regular m)))) all_modes = true.
 Proof. exact gate_c20_8_opens_pipe. Qed.
 Print Assumptions C20_load_dir_gate_refuted.
+
+(* ---- C20_coalesce: value computation (pkg/chart/v2/util/coalesce.go) ---- *)
+
+(* CoalesceValues / MergeValues with the `istable` tests and the unchecked type assertions behind
+   them written separately, as in the Go code (coalesceDeps :118, coalesceGlobals :159,
+   coalesceTablesFullKey :300): for every chart tree and every values tree the result is the one
+   of the shared value model — so no assertion fires; the theorems about load+ProcessDependencies
+   above take CoalesceValues as "any function", this is the function *)
+Theorem C20_coalesce_values :
+  forall (merge : bool) (c : Coalesce.chart) (vals : vmap),
+    coalesce_p true merge c vals = opt_res (Coalesce.coalesce merge c vals) /\
+    no_panic (coalesce_p true merge c vals).
+Proof. intros. split; [apply coalesce_p_agrees|apply coalesce_p_no_panic]. Qed.
+Print Assumptions C20_coalesce_values.
+
+(* CoalesceTables / MergeTables *)
+Theorem C20_coalesce_tables :
+  forall (merge : bool) (dst src : vmap),
+    coalesce_tables_p merge dst src = Ok (Coalesce.coalesce_tables merge dst src).
+Proof. exact coalesce_tables_p_agrees. Qed.
+Print Assumptions C20_coalesce_tables.
+
+(* trimNilValues (dependencies.go :351): the assertion under istable(val) *)
+Theorem C20_trim_nil_values : forall v : val, no_panic (trim_nil_p v).
+Proof. exact trim_nil_p_no_panic. Qed.
+Print Assumptions C20_trim_nil_values.
+
+(* the `!istable(c)` branch of coalesceDeps is what the assertion after it rests on *)
+Theorem C20_coalesce_unguarded_refuted :
+  is_panic (coalesce_p false false (Coalesce.mkChart "top" [] [Coalesce.mkChart "sub" [] []]) [("sub", VStr "x")]) = true /\
+  coalesce_p true false (Coalesce.mkChart "top" [] [Coalesce.mkChart "sub" [] []]) [("sub", VStr "x")] = Err.
+Proof. exact coalesce_unguarded_panics. Qed.
+Print Assumptions C20_coalesce_unguarded_refuted.
